@@ -7,24 +7,26 @@ import random
 from collections import OrderedDict
 from copy import deepcopy
 
-TYPES = (None, "str", "int", "float", "bool", "Optional[str]", "Optional[int]", "List[str]", "Literal['a', 'b']",
-         "Union[int, str]", "Tuple[int, str]", "np.ndarray")
+TYPES = (None, "str", "int", "float", "bool", "Optional[str]", "Optional[int]", "Optional[bool]", "Optional[float]", "List[str]",
+         "Literal['a', 'b']", "Union[int, str]", "Tuple[int, str]", "np.ndarray")
 PROSE = (None, "the {n}", "The {n} value.", "{n}, (scaled) and `raw` at 2.5 sigma")
 ABSENT = "<absent>"
-DEFAULTS = (ABSENT, None, 0, -3, 7, 2.5, True, "mnist", "```foo(1)```", "```(1, 2)```")
+DEFAULTS = (ABSENT, None, 0, -3, 7, 2.5, 0.0, True, False, "mnist", "```foo(1)```", "```(1, 2)```")
 
 # which defaults a type can describe (the supported domain pairs a value with a type that fits it)
 COMPAT = {
     None: DEFAULTS,
     "str": (ABSENT, "mnist"),
     "int": (ABSENT, 0, -3, 7),
-    "float": (ABSENT, 2.5),
-    "bool": (ABSENT, True),
+    "float": (ABSENT, 2.5, 0.0),
+    "bool": (ABSENT, True, False),
     "Optional[str]": (ABSENT, None, "mnist"),
-    "Optional[int]": (ABSENT, None, 7),
+    "Optional[int]": (ABSENT, None, 7, 0, -1),
+    "Optional[bool]": (ABSENT, None, False, True),
+    "Optional[float]": (ABSENT, None, 0.0, 2.5),
     "List[str]": (ABSENT, None),
     "Literal['a', 'b']": (ABSENT, "a"),
-    "Union[int, str]": (ABSENT, 7, "mnist"),
+    "Union[int, str]": (ABSENT, 7, 0, "mnist"),
     "Tuple[int, str]": (ABSENT, "```(1, 2)```"),
     "np.ndarray": (ABSENT, None, "```foo(1)```"),
 }
@@ -79,7 +81,7 @@ def _reduced_atoms(name):
         (None, "the {n}", ABSENT), (None, "the {n}", 7), ("str", "The {n} value.", "mnist"), ("int", "the {n}", ABSENT),
         ("int", "the {n}", -3), ("bool", "the {n}", True), ("Optional[str]", "the {n}", None), ("float", None, 2.5),
         ("Literal['a', 'b']", "the {n}", "a"), ("List[str]", "The {n} value.", ABSENT), ("Union[int, str]", "the {n}", 7),
-        ("Tuple[int, str]", "the {n}", "```(1, 2)```"),
+        ("Tuple[int, str]", "the {n}", "```(1, 2)```"), ("Optional[int]", "the {n}", 0), ("Optional[bool]", "The {n} value.", False),
     ]
     return [atom(name, *p) for p in picks]
 
